@@ -13,7 +13,8 @@ CONSTANTS FixSizeEq,      \* TRUE: endpoint refuses when bytes read # supplied s
           DevNoShaCheck,  \* deviation: endpoint compares the byte count only
           DevNoFallback,  \* deviation: md5/crc32 envelope without `checksum` declares nothing (sha256 fallback dropped)
           DevSkipMax,     \* deviation: resolver ignores its size limit
-          DevUnwrapNoAlgCheck  \* deviation: consumer treats an unknown algorithm as "nothing to verify"
+          DevUnwrapNoAlgCheck, \* deviation: consumer treats an unknown algorithm as "nothing to verify"
+          DevRetryKeepsBuffer  \* deviation: endpoint re-issues the GET after a mid-stream read error, resetting hash and count but not the buffer
 VARIABLES cur, out, hist
 vars == <<cur, out, hist>>
 
@@ -24,10 +25,15 @@ Refs == {"orig", "stored", "junk"}          \* whose checksum a field carries: t
 Maxes == {0, 3, 4}
 HashAlgs == {"sha256", "md5", "crc32"}
 
+\* fetch = how the storage delivers the object: "clean" = in one piece; "flaky_orig" / "flaky_foreign" = the first GetObject
+\* delivers a non-empty prefix (of the original / of unrelated bytes) and then fails with a non-EOF read error, every later
+\* GetObject delivers `stored` in one piece (download endpoint only)
 ReaderCases(e) == [entry : {e}, alg : Algs, ck : Refs \cup {"absent"}, sha : Refs, stored : Contents,
-                   validate : BOOLEAN, max : IF e = "resolve" THEN Maxes ELSE {0}, dsz : {4}]
+                   validate : BOOLEAN, max : IF e = "resolve" THEN Maxes ELSE {0}, dsz : {4}, fetch : {"clean"}]
 DownloadCases == [entry : {"download"}, alg : Algs, ck : {"absent"}, sha : Refs, stored : Contents,
-                  validate : {TRUE}, max : Maxes, dsz : {2, 4, 6}]
+                  validate : {TRUE}, max : Maxes, dsz : {2, 4, 6}, fetch : {"clean"}]
+                 \cup [entry : {"download"}, alg : {"", "sha256"}, ck : {"absent"}, sha : Refs, stored : Contents,
+                       validate : {TRUE}, max : {0}, dsz : {2, 4, 6}, fetch : {"flaky_orig", "flaky_foreign"}]
 Domain == ReaderCases("resolve") \cup ReaderCases("unwrap") \cup DownloadCases
 
 H(a, c) == a \o ":" \o c
@@ -68,11 +74,13 @@ Download(c) ==
   IF NormA(c.alg) # "sha256" THEN [NoBlob EXCEPT !.status = 400]
   ELSE IF c.dsz <= 0 THEN [NoBlob EXCEPT !.status = 400]
   ELSE IF c.max > 0 /\ c.dsz > c.max THEN [NoBlob EXCEPT !.status = 400]
+  ELSE IF c.fetch # "clean" /\ ~DevRetryKeepsBuffer THEN [NoBlob EXCEPT !.status = 502]     \* read error while buffering: s3_get_failed
   ELSE LET written == IF Size(c.stored) > c.dsz + 1 THEN c.dsz + 1 ELSE Size(c.stored)
            whole == written = Size(c.stored)            \* otherwise a strict prefix was hashed: matches nothing
        IN IF written > c.dsz THEN [NoBlob EXCEPT !.status = 502]
           ELSE IF FixSizeEq /\ written # c.dsz THEN [NoBlob EXCEPT !.status = 502]
           ELSE IF ~DevNoShaCheck /\ (~whole \/ H("sha256", c.stored) # ShaVal(c)) THEN [NoBlob EXCEPT !.status = 502]
+          ELSE IF c.fetch # "clean" THEN [ret |-> TRUE, blob |-> "foreign", status |-> 200]   \* (deviation) stale prefix + object sent
           ELSE [ret |-> TRUE, blob |-> c.stored, status |-> 200]
 
 SpecOut(c) == CASE c.entry = "resolve" -> Resolve(c) [] c.entry = "unwrap" -> Unwrap(c) [] c.entry = "download" -> Download(c)
@@ -89,7 +97,7 @@ Spec == Init /\ [][Next]_vars
 P == INSTANCE LfsVerifyProps WITH
        entry <- cur.entry, alg <- cur.alg, ck <- CkVal(cur), sha <- ShaVal(cur), validate <- cur.validate,
        max <- cur.max, supSize <- cur.dsz, ret <- out.ret,
-       bsize <- IF out.ret THEN Size(out.blob) ELSE 0,
+       bsize <- IF out.ret THEN (IF out.blob \in Contents THEN Size(out.blob) ELSE Size(cur.stored) + 1) ELSE 0,
        bhash <- IF out.ret THEN HashesOf(out.blob) ELSE [a \in HashAlgs |-> ""]
 Chosen == cur # None
 C30_ReaderChecksum == Chosen => P!C30_ReaderChecksum
@@ -98,7 +106,7 @@ C30_ServeSha == Chosen => P!C30_ServeSha
 C30_ServeSize == Chosen => P!C30_ServeSize
 \* sanity theorems (not part of the property): an honest object under a consistent envelope is delivered
 HonestDelivered == (Chosen /\ cur.stored = "orig" /\ cur.ck \in {"absent", "orig", "stored"} /\ cur.sha \in {"orig", "stored"}
-                    /\ cur.alg \in {"", "sha256"} /\ cur.max \in {0, 4} /\ cur.dsz = 4) => out.ret
+                    /\ cur.alg \in {"", "sha256"} /\ cur.max \in {0, 4} /\ cur.dsz = 4 /\ cur.fetch = "clean") => out.ret
 
 View == <<cur, out>>
 EmitSched == PrintT(<<"SCHED", ToJson(hist)>>)
